@@ -145,6 +145,8 @@ package client
 //@   ensures [store-non] reqType == 1 && old(w.response.isModified) && !(old(w.response.msg.Type) == 3 || old(w.response.msg.Code) == 0) ==> called(Store)
 //@   ensures [reply-con] reqType == 0 && err == nil ==> w.response.msg.MessageID == reqMessageID && w.response.msg.Type == 2
 //@   ensures [never-looks-up] notCalled(Load)
+//@   ensures [suppressed-con-gets-bare-ack] reqType == 0 && !old(w.response.isModified) ==> w.response.msg.Code == 0 && w.response.msg.Type == 2 && w.response.msg.MessageID == reqMessageID && w.response.msg.Token == nil
+//@   ensures [suppressed-non-gets-nothing] reqType != 0 && !old(w.response.isModified) ==> !w.response.isModified && notCalled(Store)
 //
 //@ func (*Conn) handleReq(w *responsewriter.ResponseWriter, req *pool.Message)
 //@   opaque-calls pure
